@@ -77,16 +77,20 @@ TIERS = {
     # *_mc runs (thorough) are larger exhaustive runs without printing.
     "quick": dict(
         sem_gen=[dict(MaxRules=2, SvcInts='{"", "write"}', NameCount=3, Fams=None)],
-        hist_gen=[dict(MaxDepth=2, NC=(4, 3, 1), both_vias=False)],
+        hist_gen=[dict(MaxDepth=2, NC=(4, 3, 1), both_vias=False),
+                  # tokens carrying the same synthetic policy twice (identity + templated policy) and their twins
+                  dict(MaxDepth=2, NC=(0, 2, 0), both_vias=True, TokSet="dup")],
         sem_mc=None, hist_mc=None,
         rnd=dict(n=32, length=8),
-        chunks={"gen:sem": 2, "gen:hist": 2, "random": 1},
+        chunks={"gen:sem": 2, "gen:hist": 3, "random": 1},
     ),
     "thorough": dict(
         sem_gen=[dict(MaxRules=2, SvcInts='{"", "deny", "write"}', NameCount=5, Fams=None),
                  dict(MaxRules=3, SvcInts='{"", "write"}', NameCount=3, Fams='{"key", "service", "node"}')],
         hist_gen=[dict(MaxDepth=2, NC=(4, 4, 2), both_vias=True),
-                  dict(MaxDepth=3, NC=(3, 2, 1), both_vias=False)],
+                  dict(MaxDepth=3, NC=(3, 2, 1), both_vias=False),
+                  dict(MaxDepth=2, NC=(2, 3, 1), both_vias=True, TokSet="dup"),
+                  dict(MaxDepth=3, NC=(0, 1, 0), both_vias=False, TokSet="dup")],
         sem_mc=None, hist_mc=dict(MaxDepth=3, NC=(4, 4, 2)),
         rnd=dict(n=200, length=12),
         chunks={"gen:sem": 5, "gen:hist": 10, "random": 4},
@@ -113,7 +117,7 @@ def _sem_cfg(base, p):
 
 def _hist_cfg(base, p, alias=None):
     return _cfg(base, MaxDepth=p["MaxDepth"], NC1=p["NC"][0], NC2=p["NC"][1], NC3=p["NC"][2],
-                AliasBug=alias)
+                AliasBug=alias, TokSet='"%s"' % p.get("TokSet", "base"))
 
 
 # ----------------------------------------------------------------------------- conversions
@@ -129,8 +133,10 @@ def hist_to_behaviours(hists, both_vias=True):
         w = h[0]
         env = {
             "pol": {_pn(i + 1): rules for i, rules in enumerate(w["pol"])},
-            "roles": {r: {"pols": [_pn(i) for i in v["pols"]], "svc": v["svc"], "node": v["node"]} for r, v in w["roles"].items()},
-            "tok": {t: {"pols": [_pn(i) for i in v["pols"]], "roles": v["roles"], "svc": v["svc"], "node": v["node"]}
+            "roles": {r: {"pols": [_pn(i) for i in v["pols"]], "svc": v["svc"], "node": v["node"],
+                          "tsvc": v["tsvc"], "tnode": v["tnode"]} for r, v in w["roles"].items()},
+            "tok": {t: {"pols": [_pn(i) for i in v["pols"]], "roles": v["roles"], "svc": v["svc"], "node": v["node"],
+                        "tsvc": v["tsvc"], "tnode": v["tnode"]}
                     for t, v in w["tok"].items()},
         }
         cmds = []
@@ -253,7 +259,7 @@ def nontrivial_keys(rows):
             before = []
         elif c["t"] == "resolve":
             t = toks[c["tok"]]
-            if t["pols"] or t["roles"] or t["svc"] or t["node"]:
+            if t["pols"] or t["roles"] or t["svc"] or t["node"] or t.get("tsvc") or t.get("tnode"):
                 keys.add("R" + str(hash((world, c["tok"], tuple(before)))))
             before.append(c["tok"])
         else:
@@ -267,6 +273,7 @@ def _is_prefix(p, n):
 
 def exercised(rows, ex):
     """vacuity counters: how often the antecedent of each clause / of NoCrossTalk was actually met"""
+    import collections
     toks = pols = None
     seen_pols = set()
     for e in rows:
@@ -290,12 +297,43 @@ def exercised(rows, ex):
         elif c["t"] == "world":
             toks, roles = c["env"]["tok"], c["env"]["roles"]
             seen_pols = set()
+            alive = set(c["env"]["pol"])
+            cached = c.get("cache") != "noauthz"     # without an authorizer cache the order cannot matter
+            ver = {}
+            seen_lists = {}      # policy list reduced modulo duplicate pairs -> set of full lists resolved so far
+        elif c["t"] in ("setpolicy", "delpolicy"):
+            ver[c["p"]] = ver.get(c["p"], 0) + 1
+            alive = (alive | {c["p"]}) if c["t"] == "setpolicy" else (alive - {c["p"]})
         elif c["t"] == "resolve":
             t = toks[c["tok"]]
-            mine = set(t["pols"]) | {p for r in t["roles"] for p in roles.get(r, {"pols": []})["pols"]}
+            owners = [t] + [roles[r] for r in t["roles"] if r in roles]
+            mine = {p for o in owners for p in o["pols"]}
             if mine & seen_pols:
                 ex["NoCrossTalk(shares a policy with an earlier resolution)"] += 1
             seen_pols |= mine
+            # the effective policy list as a multiset: linked policies (with their version) once, a synthetic policy
+            # once per KIND that yields it (identity, templated policy)
+            def names(f):
+                return {tuple(n) for o in owners for n in o.get(f, [])}
+            full = collections.Counter({("pol", p, ver.get(p, 0)): 1 for p in mine if p in alive})
+            for kind, a, b in (("svc", "svc", "tsvc"), ("node", "node", "tnode")):
+                for n in names(a):
+                    full[(kind, n)] += 1
+                for n in names(b):
+                    full[(kind, n)] += 1
+            has_dup = any(v > 1 for v in full.values())
+            reduced = frozenset(k for k, v in full.items() if v % 2 == 1)
+            fullkey = frozenset(full.items())
+            for other, other_dup in seen_lists.get(reduced, ()):
+                if other != fullkey and cached:
+                    if has_dup:
+                        ex["duplicate synthetic policy: token resolved AFTER its twin (same list minus the pair)"] += 1
+                    if other_dup:
+                        ex["duplicate synthetic policy: twin resolved AFTER the token that has the pair"] += 1
+                    break
+            seen_lists.setdefault(reduced, set()).add((fullkey, has_dup))
+            if has_dup:
+                ex["duplicate synthetic policy: resolutions of such tokens"] += 1
     return ex
 
 
@@ -317,7 +355,10 @@ def run(tier):
     import collections
     exer = collections.Counter({k: 0 for k in ("ExactWins", "LongestPrefixWins(nested prefixes)", "DenyOverrides", "DefaultDecides",
                                                "same slot, different levels (merge)", "OrderIndependent(>1 realisation)",
-                                               "NoCrossTalk(shares a policy with an earlier resolution)")})
+                                               "NoCrossTalk(shares a policy with an earlier resolution)",
+                                               "duplicate synthetic policy: resolutions of such tokens",
+                                               "duplicate synthetic policy: token resolved AFTER its twin (same list minus the pair)",
+                                               "duplicate synthetic policy: twin resolved AFTER the token that has the pair")})
     thorough = tier == "thorough"
     W = 4
     SEM_INV = ["InvExactWins", "InvLongestPrefix", "InvDenyOverrides", "InvDefaultDecides", "InvMergeOrderFree", "InvVariantsAgree", "InvTotal"]
